@@ -21,6 +21,11 @@ def load_known(prop):
 
 def classify(prop, failure, kn):
     for e in kn:
+        m = e.get("match")
+        if m is not None:
+            if failure.get("backend", "pandas") == m.get("backend", "pandas") and any(failure.get("class", "").startswith(c) for c in m["class"]):
+                return e
+            continue
         pred = getattr(known, e["classifier"], None)
         if pred is not None:
             try:
